@@ -426,6 +426,14 @@ func (s *scope) createInstance(descriptor *Descriptor) (any, error) {
 	// Get cached invoker (reduces allocations)
 	invoker := s.rootProvider.analyzer.GetInvoker()
 
+	// The cached analysis may stem from another function value that shares the
+	// code pointer (closures, method values); always call this descriptor's own
+	if info.IsFunc && info.Value != descriptor.Constructor {
+		own := *info
+		own.Value = descriptor.Constructor
+		info = &own
+	}
+
 	// Invoke constructor
 	results, err := invoker.Invoke(info, s)
 	if err != nil {
